@@ -39,6 +39,8 @@ type Scenario struct {
 	TLS         bool
 	BodyMax     int
 	SampleRate  int
+	Vanish      bool // a consumer stops reading mid-stream: the daemon's write to it fails (C01)
+	RdyZero     bool // an idle consumer lowers RDY / CLS / its channel is paused, long before the next publish (C03)
 }
 
 func (s Scenario) String() string {
@@ -81,6 +83,12 @@ func genScenario(mode string, seed int64) Scenario {
 	s.NMsg = 6 + r.Intn(14)
 	s.Phases = 2
 	s.BodyMax = 64
+	if mode == "core" {
+		s.Vanish = r.Intn(3) == 0
+	}
+	if mode == "flow" {
+		s.RdyZero = true
+	}
 	switch mode {
 	case "contend":
 		s.Topics = s.Topics[:1]
@@ -222,6 +230,10 @@ func (r *Run) makeBody(rng *rand.Rand, p, i int) (string, []byte) {
 		}
 		b.Write(pad)
 	} else {
+		if (r.sc.Mode == "core" || r.sc.Mode == "restart") && rng.Intn(12) == 0 {
+			// within 26 bytes (the size of the on-disk header) of max-msg-size
+			n = r.maxMsgSize() - len(key) - 1 - rng.Intn(27)
+		}
 		for j := 0; j < n; j++ {
 			b.WriteByte(byte('a' + rng.Intn(26)))
 		}
@@ -654,8 +666,13 @@ func (r *Run) nodeOpts(o *nsqd.Options) {
 		o.TLSCert = repoDir() + "/nsqd/test/certs/server.pem"
 		o.TLSKey = repoDir() + "/nsqd/test/certs/server.key"
 	}
-	o.MaxMsgSize = 128 * 1024
+	o.MaxMsgSize = int64(r.maxMsgSize())
+	if r.sc.Vanish {
+		o.MaxMsgSize = 8 << 20 // the stalled-consumer step publishes one message larger than any socket buffer
+	}
 }
+
+func (r *Run) maxMsgSize() int { return 128 * 1024 }
 
 func repoDir() string {
 	if d := os.Getenv("VERIF_REPO"); d != "" {
